@@ -789,6 +789,40 @@ def r15_fields_split_at_blank_runs(ctx, rep):
         raise AnalysisError("settings.py: functions not found")
 
 
+def r16_defaults_do_not_overwrite(ctx, rep):
+    """Built-in defaults are merged *under* what the user configured.  `self.<option>.update(<BUILT_IN_TABLE>)` does the opposite:
+    for a key the user set as well, the built-in value wins - `extra_mods: iso_fortran_env: https://my.site/...` in the project
+    file is silently replaced by the default URL."""
+    py = ctx.py
+    fields = set(schema(py, "ProjectSettings"))
+    n = 0
+    for mod, fn in py.all_functions():
+        if mod != "settings":
+            continue
+        for c in py.walk_calls(fn):
+            if isinstance(c.func, ast.Attribute) and c.func.attr == "update" and isinstance(c.func.value, ast.Attribute) and \
+                    ast.unparse(c.func.value.value) == "self" and c.func.value.attr in fields and c.args and \
+                    isinstance(c.args[0], ast.Name) and c.args[0].id.isupper():
+                n += 1
+                rep.ob(f"{py.qualname(fn)}: `{ast.unparse(c)}`", False,
+                       f"the built-in table `{c.args[0].id}` is written over the configured `{c.func.value.attr}`: an entry the user gave for "
+                       f"a key that also has a default is lost (defaults must be merged under the user's values: "
+                       f"`{{**{c.args[0].id}, **self.{c.func.value.attr}}}`)", py.nloc(c))
+    merges = [a for _m, fn in py.all_functions() if _m == "settings" for a in ast.walk(fn)
+              if isinstance(a, ast.Assign) and any(isinstance(t, ast.Attribute) and ast.unparse(t.value) == "self" and t.attr in fields for t in a.targets)
+              and isinstance(a.value, ast.Dict) and any(k is None for k in a.value.keys)]
+    for a in merges:
+        # {**DEFAULTS, **self.x}: later entries win - the configured mapping must come last
+        stars = [v for k, v in zip(a.value.keys, a.value.values) if k is None]
+        n += 1
+        ok = bool(stars) and ast.unparse(stars[-1]).startswith("self.")
+        rep.ob(f"settings: `{ast.unparse(a)[:60]}`", ok, "the configured mapping is merged last" if ok else
+               "the built-in table is merged after the configured mapping and overwrites it", py.nloc(a))
+    if n == 0:
+        rep.ob("built-in defaults are merged under configured mappings", True, "no built-in table is merged into an option", "ford/settings.py",
+               nontrivial=False)
+
+
 RULES = [
     RuleSpec("C15.R4", r4_path_rooting, "relative paths are rooted at the project file's directory", floor=2),
     RuleSpec("C15.R8", r8_metadata_grammar, "markdown metadata grammar: key lines vs continuation lines", floor=2),
@@ -804,4 +838,5 @@ RULES = [
     RuleSpec("C15.R13", r13_metadata_accumulates, "repeated metadata keys accumulate (lists agree between formats)", floor=2),
     RuleSpec("C15.R14", r14_paths_do_not_depend_on_cwd, "path normalisation is a function of the project directory (shared with C19.R3)", floor=1),
     RuleSpec("C15.R15", r15_fields_split_at_blank_runs, "textual records in option values are split at runs of blanks", floor=1),
+    RuleSpec("C15.R16", r16_defaults_do_not_overwrite, "built-in defaults are merged under configured values", floor=1),
 ]
